@@ -67,9 +67,19 @@ def main():
     if a.jobs <= 1 or len(descs) <= 1:
         results = [_run_one((a.pid, d)) for d in descs]
     else:
+        # overall wall-clock budget: a change of the code under test that makes many cases slow must not hang the check;
+        # cases not reached are reported (`not_evaluated`), cases that hit the per-case limit are `terminates` failures
+        budget = float(os.environ.get('VT_BOUNDED_BUDGET', '900' if a.tier == 'quick' else '5400'))
         with mp.Pool(a.jobs) as pool:
-            for r in pool.imap_unordered(_run_one, [(a.pid, d) for d in descs], chunksize=max(1, len(descs) // (a.jobs * 8))):
-                results.append(r)
+            it = pool.imap_unordered(_run_one, [(a.pid, d) for d in descs], chunksize=max(1, len(descs) // (a.jobs * 8)))
+            while True:
+                try:
+                    results.append(it.next(timeout=max(1.0, budget - (time.time() - t0))))
+                except StopIteration:
+                    break
+                except mp.TimeoutError:
+                    pool.terminate()
+                    break
     keys = set()
     failures = []
     herr = []
@@ -89,7 +99,7 @@ def main():
     samples = [r['desc'] for r in results[::step]][:6]
     out = dict(property=a.pid, tier=a.tier, seed=a.seed, evaluations=len(results), distinct_nontrivial=len(keys),
                failures=failures, harness_errors=herr[:10], n_harness_errors=len(herr), samples=samples,
-               kinds=kinds, wall_s=time.time() - t0,
+               kinds=kinds, wall_s=time.time() - t0, not_evaluated=len(descs) - len(results),
                rule=getattr(mod, 'RULE', ''), bounds=getattr(mod, 'BOUNDS', {}).get(a.tier, ''),
                exhaustive=bool(getattr(mod, 'EXHAUSTIVE', {}).get(a.tier, False)))
     if a.out:
